@@ -413,9 +413,10 @@ type BytesFrameReader struct {
 func NewBytesFrameReader(r io.Reader) (*BytesFrameReader, error) {
 	var version [2]byte
 
-	switch _, err := r.Read(version[:]); {
-	case errors.Is(err, io.EOF):
-	case err != nil:
+	// NOTE a reader may deliver the version in pieces
+	switch _, err := io.ReadFull(r, version[:]); {
+	case err == nil, errors.Is(err, io.EOF), errors.Is(err, io.ErrUnexpectedEOF):
+	default:
 		return nil, errors.Wrap(err, "version")
 	}
 
